@@ -12,6 +12,7 @@ from ..tables import enum_switches, variant_table, guard_context
 from .compiler_common import PX
 
 LEVEL = 'other'
+TECHNIQUE = 'static analysis: enum-table extraction (lifecycle tables), who-may-call + loop membership, guard contexts, provenance of derived lifecycles, decision audit (bind-or-inline), dominance of per-node membership tests, monotone-set who-may-mutate audit'
 CLAUSE = ('request graphs map Singleton->input, RequestScoped->One, Transient->Multiple and the application-state graph maps Singleton->One, '
           'Transient->Multiple; in build_call_graph the NodeDeduplicator is created once, outside every loop, nodes that may run once go '
           'through it and transient nodes never do; RequestHandlerPipeline::enforce_invariants counts constructor nodes over all stored call '
